@@ -13,6 +13,7 @@ Atoms:
   ("call", name, arg...)        uninterpreted application; args are index entities, strings or Exprs
   ("prod", var, cls, Expr)      product over var in [0, cls)
   ("ite", cond_key, Expr, Expr) conditional value; cond_key is a canonical condition string
+  ("itec", op, Expr, Expr, Expr, Expr)  conditional value on a comparison `L op R` of two formulas (binder-safe: both sides are substituted)
   ("acc", id, idx...)           accumulator placeholder (fold/loop summarisation)
 """
 import itertools
@@ -163,6 +164,9 @@ def atom_vars(a):
                 out |= set(_re.findall("«([^»]*)»", x))
     elif k in ("prod", "bitunion"):
         out |= a[3].free_vars() - {a[1]}
+    elif k == "itec":
+        for x in a[2:]:
+            out |= x.free_vars()
     elif k == "ite":
         out |= a[2].free_vars() | a[3].free_vars()
         for x in a[4:]:
@@ -198,6 +202,8 @@ def atom_subst(a, m):
     if k in ("prod", "bitunion"):
         m2 = {kk: vv for kk, vv in m.items() if kk != a[1]}
         return (k, a[1], a[2], a[3].subst(m2))
+    if k == "itec":
+        return ("itec", a[1]) + tuple(x.subst(m) for x in a[2:])
     if k == "ite":
         return ("ite", cond_subst(a[1], m), a[2].subst(m), a[3].subst(m)) + tuple(m.get(x, x) if isinstance(x, str) else x for x in a[4:])
     return a
@@ -238,6 +244,8 @@ def atom_key(a, depth=0):
         dummy = "§%d" % depth
         body = a[3].subst({a[1]: dummy})
         return "%s[%s<%s](%s)" % ("Π" if k == "prod" else "⋃", dummy, a[2], body.key(depth + 1))
+    if k == "itec":
+        return "ite(%s %s %s ? %s : %s)" % (a[2].key(depth + 1), a[1], a[3].key(depth + 1), a[4].key(depth + 1), a[5].key(depth + 1))
     if k == "ite":
         return "ite(%s ? %s : %s)" % (a[1], a[2].key(depth + 1), a[3].key(depth + 1))
     return repr(a)
@@ -423,6 +431,8 @@ def atom_any(a, pred):
         subs = [a[1]]
     elif k in ("prod", "bitunion"):
         subs = [a[3]]
+    elif k == "itec":
+        subs = list(a[2:])
     elif k == "ite":
         subs = [a[2], a[3]]
     elif k == "call":
